@@ -106,7 +106,7 @@ def run(chk, program, tier):
     chk.floor('dump_models', nm, 200)
     dump_names = F.attr_names(program, cf)['dump_pgns']
     n = F.norm_rule(chk, program, 'DUMP-NORM', {dump_names[1]}, {dump_names[0]}, ['_call_decode_function'], consts)
-    chk.floor('dump_membership_tests', n, 2)
+    chk.floor('dump_membership_tests', n, 1)       # the case variants are decided by the table above; this reading only confirms the spelling `probe.lower() in list`
     dump_file(chk, program)
     json_rules(chk, program)
     message_fields(chk, program)
@@ -250,9 +250,19 @@ def json_semantic(chk, program):
                     o = it.expr(f.value, env)
                     if isinstance(o, A.AObj) and o.attrs.get('__class__') == 'timedelta':
                         return A.AObj(total_seconds_of=o)
+                if isinstance(f, ast.Name) and f.id == 'timedelta' and not call.args and len(call.keywords) == 1 and call.keywords[0].arg == 'seconds' \
+                        and isinstance(call.keywords[0].value, ast.Constant) and call.keywords[0].value.value == 1:
+                    return A.AObj(one_second=True)
+                return NotImplemented
+            def bh(op, a, b):
+                # td / timedelta(seconds=1) is td.total_seconds()
+                if isinstance(op, ast.Div) and isinstance(a, A.AObj) and a.attrs.get('__class__') == 'timedelta' and isinstance(b, A.AObj) and b.attrs.get('one_second'):
+                    return A.AObj(total_seconds_of=a)
                 return NotImplemented
             try:
-                return ('return', A.Interp(hook=hk, skip=is_logger, module=menv).call_function(hookf.fn, [v], closure=hookf.closure))
+                it_ = A.Interp(hook=hk, skip=is_logger, module=menv)
+                it_.binop_hook = bh
+                return ('return', it_.call_function(hookf.fn, [v], closure=hookf.closure))
             except A.RaiseSignal as rs:
                 return ('raise', A.exc_kind(rs))
         td = A.AObj(); td.attrs['__class__'] = 'timedelta'
